@@ -825,7 +825,9 @@ BRK_WRAPPERS = ["if", "then_else", "else", "try", "except"]
 LOOP_WRAPPERS = ["for", "while"]
 
 
-def gen_special(rng, cls, force=None):
+def gen_special(rng, cls, force=None, quiet=False):
+    """quiet: the prologue neither reads nor re-assigns the block-bound names after their block; the main loop re-assigns each
+    by a plain `x = x + k` before printing it (the shape in which a name that lost its global declaration still compiles)"""
     b = Builder(rng)
     mon = "mon"
     b.used_names.add(mon)
@@ -908,9 +910,9 @@ def gen_special(rng, cls, force=None):
                 pre += [("try", [bind] + extra, [("set", v, ("const", c2))])]
             if v not in promoted:
                 promoted.append(v)
-            if rng.random() < 0.3:
+            if rng.random() < 0.3 and not quiet:
                 pre.append(("show", mon, v))
-            if rng.random() < 0.12:
+            if rng.random() < 0.12 and not quiet:
                 pre.append(("set", v, ("add", v, 1)))        # a depth-0 re-assignment later in the prologue
             if rng.random() < 0.4:
                 pre.append(fm())
@@ -919,7 +921,7 @@ def gen_special(rng, cls, force=None):
         body.append(start)
         rest = []
         for v in promoted:
-            r = rng.random()
+            r = rng.random() if not quiet else 0.0     # quiet: plain re-assignment first, then the value is printed
             if r < 0.6:
                 rest.append(("seq", [("set", v, ("add", v, rng.randint(1, 3))), ("show", mon, v)]))
             elif r < 0.75:
@@ -960,7 +962,7 @@ def gen_special(rng, cls, force=None):
     pre = [("set", wc, ("const", 0)) for wc in counters] + pre
     items += [("stmt", x) for x in flatten_seq(pre)]
     items.append(("main", flatten_seq(body)))
-    prog = {"augmented": True, "items": items, "marks": b.marks, "inputs": b.inputs, "lcd_user_row": {}, "lcd_anim_rows": {},
+    prog = {"augmented": not quiet, "items": items, "marks": b.marks, "inputs": b.inputs, "lcd_user_row": {}, "lcd_anim_rows": {},
             "lcd_order": [], "devs": b.devs, "cls": cls, "sentinels": sentinels, "starts": starts, "promoted": promoted}
     prog["src"] = render(prog, rng)
     return prog
@@ -1904,6 +1906,7 @@ def run(ctx: C.Ctx):
     progs += [gen("rebind", force=f) for f in forced]
     # ---- names bound inside prologue blocks (every form alone, then mixed), breaks behind else / try / except lines
     specials = [("prom_" + f, [f]) for f in PROM_FORMS]
+    progs += [gen_special(rng, "prom_" + f, force=[f], quiet=True) for f in PROM_FORMS]
     specials += [(SPECIAL_CLASSES[i % len(SPECIAL_CLASSES)], None) for i in range(170 if thorough else 17)]
     chains = [[a] for a in BRK_WRAPPERS] + [[a, c] for a in BRK_WRAPPERS for c in BRK_WRAPPERS]
     if thorough:
